@@ -120,6 +120,17 @@ func NewG(info *types.Info, body *ast.BlockStmt) *G {
 	return g
 }
 
+// EdgeImplies: taking successor k of block b establishes the fact recognised by
+// holds (tagged switch cases spelled out, bool locals and small predicate
+// helpers expanded).
+func (g *G) EdgeImplies(b *cfg.Block, k int, holds func(atom ast.Expr, truth bool) bool) bool {
+	cond := g.CondAt(b)
+	if cond == nil {
+		return false
+	}
+	return ImpliedX(g.Info, g.Body, cond, k == 0, holds)
+}
+
 // CondAt returns the branch condition of block b with tagged-switch cases
 // spelled out as `tag == value`.
 func (g *G) CondAt(b *cfg.Block) ast.Expr {
